@@ -120,6 +120,18 @@ func (r *Rec) Eval() {
 	r.beat.Store(time.Now().UnixNano())
 }
 
+// AddEvals counts n executions of the real code performed by an external engine.
+func (r *Rec) AddEvals(n int64) {
+	r.Evals += n
+	if st := r.PerSub[r.sub.Name]; st != nil {
+		st.Evals += n
+	}
+	r.beat.Store(time.Now().UnixNano())
+}
+
+// Beat feeds the hang watchdog while an external engine is running.
+func (r *Rec) Beat() { r.beat.Store(time.Now().UnixNano()) }
+
 // Label names the step in progress (used when a hang or fatal error is attributed).
 func (r *Rec) Label(s string) { r.label.Store(s) }
 
